@@ -26,6 +26,7 @@ type cenv struct {
 	// parameter values at the call (call sites) or at entry (verification)
 	params map[string]Value
 	depth  int
+	loopPre *State // loop invariants: the state in which the loop was entered, for entry(e)
 	root   *cenv // the clause's top-level environment: lets are evaluated there, once
 	lets   map[string]Value
 }
@@ -154,6 +155,12 @@ type cStr struct{ s string }
 // cHeapArr is a heap field array passed to a spec function.
 type cHeapArr struct{ t *Term }
 
+// cTable is a constant package-level lookup table.
+type cTable struct {
+	name string
+	n    int
+}
+
 // cPkg is a package qualifier (http2utils., spec.).
 type cPkg struct{ name string }
 
@@ -165,6 +172,9 @@ func (e *cenv) ident(name string) Value {
 		return v
 	}
 	fx := e.fx
+	if v, ok := e.st.ghost["g:"+name]; ok {
+		return v
+	}
 	if e.con != nil {
 		for _, l := range e.con.Lets {
 			if l.Label == name {
@@ -193,6 +203,11 @@ func (e *cenv) ident(name string) Value {
 			}
 		}
 	}
+	if e.fn == nil {
+		if v, ok := e.params[name]; ok {
+			return v
+		}
+	}
 	if e.fn != nil {
 		if e.body && !e.inOld {
 			if a := fx.cellByName(e.fn, name); a != nil {
@@ -200,6 +215,12 @@ func (e *cenv) ident(name string) Value {
 					return v
 				}
 				return fx.zeroValue(a.Type().(*types.Pointer).Elem())
+			}
+			// locals captured by closures live on the heap: read them through their address
+			if a := fx.heapLocalByName(e.fn, name); a != nil {
+				if addr, ok := e.st.vals[a]; ok {
+					return fx.load(e.st, e.reach, addr, a.Type().(*types.Pointer).Elem())
+				}
 			}
 			// closures: captured variables are free variables holding cell addresses
 			for _, fv := range e.fn.FreeVars {
@@ -235,6 +256,9 @@ func (e *cenv) ident(name string) Value {
 			g := fx.eng.globalFor(o)
 			if g == nil {
 				cfail("no SSA global for %s", name)
+			}
+			if gi := fx.eng.globals[globalName(g)]; gi != nil && gi.kind == "intarray" && !fx.eng.mutableGlobals[globalName(g)] {
+				return cTable{globalName(g), len(gi.table)}
 			}
 			return fx.load(e.st, e.reach, fx.valueOf(e.st, g), o.Type())
 		case *types.TypeName:
@@ -540,6 +564,13 @@ func (e *cenv) index(x *CExpr) Value {
 	case VArr:
 		at := b.typ.Underlying().(*types.Array)
 		return e.elemValue(ts.Select(b.arr, i), at.Elem())
+	case cTable:
+		if fx.tables == nil {
+			fx.tables = map[string]bool{}
+		}
+		fx.tables[b.name] = true
+		fx.usesSpec = true
+		return VInt{ts.App("tbl."+sanitize(b.name), SInt, i)}
 	case cStr:
 		if i.isInt() && i.ival.IsInt64() && i.ival.Int64() >= 0 && int(i.ival.Int64()) < len(b.s) {
 			return VInt{ts.Int(int64(b.s[i.ival.Int64()]))}
@@ -608,6 +639,21 @@ func (e *cenv) call(x *CExpr) Value {
 			c.st = e.old
 			c.inOld = true
 			return c.freeze(c.eval(args[0]))
+		case "entry":
+			// entry(e): value of e when the loop this invariant belongs to was entered
+			if e.loopPre == nil {
+				cfail("entry() is only meaningful in a loop invariant")
+			}
+			c := e.child()
+			c.st = e.loopPre
+			c.inOld = false
+			v := c.eval(args[0])
+			if s, ok := v.(VSlice); ok && s.view == nil && intRepresentable(s.elem) {
+				h := fx.heapGet(e.loopPre, elemHeapKey(s.elem), SArr2)
+				s.view = ts.Select(h, s.arr)
+				return s
+			}
+			return v
 		case "forall", "exists":
 			if len(args) != 4 && len(args) != 2 {
 				cfail("%s needs (i, lo, hi, body) or (i, body)", f.Name)
@@ -838,6 +884,12 @@ func (e *cenv) specCall(name string, args []*CExpr) Value {
 		fx.specUsed = map[string]bool{}
 	}
 	fx.specUsed[sf.File] = true
+	if strings.Contains(sf.File, "huffman") {
+		if fx.tables == nil {
+			fx.tables = map[string]bool{}
+		}
+		fx.tables["huffmanCodeLen"] = true
+	}
 	t := ts.App("spec."+name, sf.Result, ta...)
 	if sf.Result == SBool {
 		return VBool{t}
